@@ -317,7 +317,7 @@ func (l *linearPalette[T]) id(v T) (int, bool) {
 			return i, true
 		}
 	}
-	if cap(l.values)-len(l.values) > 0 {
+	if len(l.values) < 1<<l.bits {
 		l.values = append(l.values, v)
 		return len(l.values) - 1, true
 	}
@@ -383,7 +383,7 @@ func (h *hashPalette[T]) id(v T) (int, bool) {
 	if i, ok := h.ids[v]; ok {
 		return i, true
 	}
-	if cap(h.values)-len(h.values) > 0 {
+	if len(h.values) < 1<<h.bits {
 		h.ids[v] = len(h.values)
 		h.values = append(h.values, v)
 		return len(h.values) - 1, true
